@@ -162,3 +162,94 @@ func H_Uncommit_Owner() { uncommit(false) }
 //vrf:cover uncommit-ok uncommit-refused
 //vrf:bound as above; liquidation (overrides lock-ups)
 func H_Uncommit_Liquidation() { uncommit(true) }
+
+// ---- accounts with several committed denoms ----
+
+var share2 = ammtypes.GetPoolShareDenom(2)
+
+// An account holding two committed denoms (in either list order) uncommits part or all of one of them: the other
+// denom's record is untouched, no entry is duplicated or lost, custody still covers every commitment.
+// noHooks: the commitment hooks' contract for Eden steps (the estaking implementation keeps SDK staking /
+// distribution records and does not touch the commitment ledger)
+type noHooks struct{}
+
+func (noHooks) CommitmentChanged(ctx sdk.Context, creator sdk.AccAddress, amount sdk.Coins) error {
+	return nil
+}
+func (noHooks) EdenUncommitted(ctx sdk.Context, creator sdk.AccAddress, amount sdk.Coin) error {
+	return nil
+}
+func (noHooks) BeforeEdenInitialCommit(ctx sdk.Context, addr sdk.AccAddress) error  { return nil }
+func (noHooks) BeforeEdenBInitialCommit(ctx sdk.Context, addr sdk.AccAddress) error { return nil }
+func (noHooks) BeforeEdenCommitChange(ctx sdk.Context, addr sdk.AccAddress) error   { return nil }
+func (noHooks) BeforeEdenBCommitChange(ctx sdk.Context, addr sdk.AccAddress) error  { return nil }
+
+func twoDenoms(first, second string) {
+	opts := wire.Opts{}
+	if first == "ueden" || second == "ueden" {
+		opts.CommHooks = noHooks{}
+	}
+	env := wire.New(opts)
+	now := vrf.I64("now", 1, maxT)
+	env.Ctx = vrf.SetBlock(env.Ctx, 10, now)
+	ctx := env.Ctx
+	for _, d := range []string{first, second} {
+		env.Aprof.SetEntry(ctx, aptypes.Entry{BaseDenom: d, Denom: d, Decimals: 18, CommitEnabled: true, WithdrawEnabled: true})
+	}
+	a1, a2 := vrf.Int("committedFirst"), vrf.Int("committedSecond")
+	vrf.Assume(a1.IsPositive())
+	vrf.Assume(a2.IsPositive())
+	c := env.Comm.GetCommitments(ctx, alice)
+	c.CommittedTokens = []*ctypes.CommittedTokens{{Denom: first, Amount: a1, Lockups: []ctypes.Lockup{}}, {Denom: second, Amount: a2, Lockups: []ctypes.Lockup{}}}
+	env.Comm.SetCommitments(ctx, c)
+	p := ctypes.DefaultParams()
+	p.TotalCommitted = sdk.Coins{}
+	for _, x := range []struct {
+		d string
+		a sdkmath.Int
+	}{{first, a1}, {second, a2}} {
+		p.TotalCommitted = p.TotalCommitted.Add(sdk.NewCoin(x.d, x.a))
+		if x.d != "ueden" && x.d != "uedenb" {
+			env.W.SetBal(commMod, x.d, x.a) // bank-backed denoms sit in custody
+		}
+	}
+	env.Comm.SetParams(ctx, p)
+	which, other, have, keep := first, second, a1, a2
+	if vrf.Bool("uncommitSecond") {
+		which, other, have, keep = second, first, a2, a1
+	}
+	amt := vrf.Int("amt")
+	vrf.Assume(amt.IsPositive())
+	if err := env.Comm.UncommitTokens(ctx, alice, which, amt, false); err != nil {
+		vrf.Cover("uncommit-refused")
+		vrf.Assert(amt.GT(have), "C12 two denoms: an uncommit within the committed amount (no locks) is not refused")
+		return
+	}
+	vrf.Cover("uncommit-ok")
+	c2 := env.Comm.GetCommitments(ctx, alice)
+	n := map[string]int{}
+	for _, t := range c2.CommittedTokens {
+		n[t.Denom]++
+	}
+	vrf.Assert(n[first] <= 1 && n[second] <= 1, "C12 two denoms: the record holds at most one entry per denom")
+	vrf.Assert(c2.GetCommittedAmountForDenom(which).Equal(have.Sub(amt)), "C12 two denoms: the uncommitted denom drops by exactly the amount")
+	vrf.Assert(c2.GetCommittedAmountForDenom(other).Equal(keep), "C12 two denoms: the other committed denom of the account is untouched")
+	if other != "ueden" && other != "uedenb" {
+		vrf.Assert(env.W.BalOf(commMod, other).GTE(c2.GetCommittedAmountForDenom(other)), "C12 two denoms: custody still covers the other denom")
+	}
+	if which != "ueden" && which != "uedenb" {
+		vrf.Assert(env.W.BalOf(commMod, which).GTE(c2.GetCommittedAmountForDenom(which)), "C12 two denoms: custody still covers the uncommitted denom")
+	}
+}
+
+//vrf:cover uncommit-ok uncommit-refused
+//vrf:bound 1 account with two committed LP-share denoms (pool 1, pool 2), symbolic amounts, uncommit of either (partial, full or too much)
+func H_Uncommit_TwoShareDenoms() { twoDenoms(share, share2) }
+
+//vrf:cover uncommit-ok uncommit-refused
+//vrf:bound 1 account with committed Eden followed by an LP-share denom; uncommit of either
+func H_Uncommit_EdenThenShare() { twoDenoms("ueden", share) }
+
+//vrf:cover uncommit-ok uncommit-refused
+//vrf:bound 1 account with an LP-share denom followed by committed Eden; uncommit of either
+func H_Uncommit_ShareThenEden() { twoDenoms(share, "ueden") }
